@@ -244,6 +244,23 @@ func TestReplay(t *testing.T) {
 		}
 	}
 	t.Logf("dot layouts: %d", n)
+	// cgo: the "C" import alone, grouped with other imports, with and without a preamble
+	for i, src := range []string{
+		"package root\n\n/*\n#include <stdio.h>\n*/\nimport \"C\"\n\nimport \"fmt\"\n\nfunc f() {\n\tfmt.Println(C.x)\n}\n",
+		"package root\n\n// #include <stdio.h>\nimport \"C\"\n\nfunc f() {\n\t_ = C.x\n}\n",
+		"package root\n\nimport (\n\t\"fmt\"\n\n\t/*\n\t   #include <stdio.h>\n\t*/\n\t\"C\"\n)\n\nfunc f() {\n\tfmt.Println(C.x)\n}\n",
+		"package root\n\nimport (\n\t\"C\"\n\t\"fmt\"\n\t\"os\"\n)\n\nfunc f() {\n\tfmt.Println(C.x, os.Args)\n}\n",
+		"package root\n\nimport \"C\"\n\nimport (\n\t\"fmt\"\n\t\"os\"\n)\n\nfunc f() {\n\tfmt.Println(C.x, os.Args)\n}\n",
+		"package root\n\nimport (\n\t\"C\"\n)\n\nfunc f() {\n\t_ = C.x\n}\n",
+	} {
+		cs, fix, err := oracle.Canon([]byte(src))
+		if err != nil || !fix {
+			t.Fatalf("harness: cgo case %d: %v", i, err)
+		}
+		h.Eval("Cgo")
+		checkPlain(t, "Cgo", string(cs), false)
+		h.NonTrivial("Cgo", string(cs))
+	}
 }
 
 // checkPlain round-trips one stand-alone file with goast + guess resolvers. strict ignores the
@@ -275,6 +292,7 @@ func checkPlain(t h.TB, sub, src string, strict bool) {
 }
 
 func init() {
+	h.RegisterReplay("Cgo", func(t h.TB, s string) { checkPlain(t, "Cgo", s, false) })
 	h.RegisterReplay("DotLayouts", func(t h.TB, s string) { checkPlain(t, "DotLayouts", s, false) })
 	h.RegisterReplay("Witness", func(t h.TB, s string) { checkPlain(t, "Witness", s, true) })
 	_ = ast.NewIdent
